@@ -23,7 +23,8 @@ NoId == 0
 ASSUME NoId \notin Ids
 
 Item(p, i) == [p |-> p, id |-> i]
-RejectKinds == {"missing_required", "fieldset_mismatch", "id_inconsistent"}
+\* "fieldset_redefined": a field set with the same field NAMES as one of the store's but another definition
+RejectKinds == {"missing_required", "fieldset_mismatch", "fieldset_redefined", "id_inconsistent"}
 
 VARIABLES
   exists,     \* does file F exist
@@ -152,7 +153,7 @@ Add(p, i) ==
 \* an addition the store must refuse; nothing may change
 AddRejected(kind) ==
   /\ Writable
-  /\ kind = "fieldset_mismatch" => added # <<>>
+  /\ kind \in {"fieldset_mismatch", "fieldset_redefined"} => added # <<>>
   /\ kind = "id_inconsistent" => indexable # "undecided"
   /\ last' = Reply("addbad", kind, "no", "-")
   /\ UNCHANGED state
